@@ -65,7 +65,7 @@ def gen_design(r, features=()):
             m.ports.append((nm, r.choice(["input", "output"]), w))
             m.nets[nm] = (w - 1, 0)
         for j in range(r.randint(0, 4)):
-            lsb = r.choice([0, 0, 1, 3])
+            lsb = r.choice([0, 0, 1, 3, -2, -1, 250])      # (any integers: a range may start below zero or beyond 255)
             w = r.choice([1, 1, 2, 4, 6])
             m.nets[esc(r, "n%d" % j, features)] = (lsb + w - 1, lsb)
         if "attrs" in features and r.random() < 0.3:
